@@ -53,6 +53,31 @@ MUTANTS = {
     # date handler narrowed to the boilerplate case
     'm12-date-syntax-error-only-boilerplate': [replace('lib/check/__init__.py', "                except gettext.DateSyntaxError:\n                    self.tag('invalid-date', tags.safestr(field + ':'), date)\n                    continue\n",
                                                        "                except gettext.DateSyntaxError as exc:\n                    if exc.args and 'ambiguous' in str(exc.args[0]):\n                        raise\n                    self.tag('invalid-date', tags.safestr(field + ':'), date)\n                    continue\n")],
+    # ---- variants of m01-m03, m09 that the pinned suite does not notice
+    # narrowed except: the lexer's error escapes when the offending character comes late in the expression
+    'm13-plural-lexing-error-late': [replace('lib/gettext.py', "    except intexpr.LexingError:\n        raise PluralExpressionSyntaxError\n",
+                                             "    except intexpr.LexingError as exc:\n        if exc.source_pos.idx > 40:\n            raise\n        raise PluralExpressionSyntaxError\n")],
+    # narrowed except: a directory in front of LC_MESSAGES with a well-formed but unknown locale code
+    'm14-lc-messages-fixing-failed': [replace('lib/check/__init__.py', "                    language.remove_nonlinguistic_modifier()\n                except ling.LanguageError:",
+                                              "                    language.remove_nonlinguistic_modifier()\n                except ling.LanguageSyntaxError:")],
+    # arithmetic failures at n < 2 no longer handled
+    'm15-zero-division-small-n': [replace('lib/check/__init__.py', "        except ZeroDivisionError:\n            message = tags.safe_format('f({}): division by zero', i)",
+                                          "        except ZeroDivisionError:\n            if i < 2:\n                raise\n            message = tags.safe_format('f({}): division by zero', i)")],
+    'm16-overflow-small-n': [replace('lib/check/__init__.py', "        except OverflowError:\n            message = tags.safe_format('f({}): integer overflow', i)",
+                                     "        except OverflowError:\n            if i < 2:\n                raise\n            message = tags.safe_format('f({}): integer overflow', i)")],
+    # a raised Error subclass re-parented: check_string still has a clause of its own for it, check_message (msgid of a non-template) has not
+    'm17-c-missing-argument-reparented': [replace('lib/strformat/c.py', 'class MissingArgument(Error):', 'class MissingArgument(Exception):')],
+    'm18-python-type-mismatch-reparented': [replace('lib/strformat/python.py', 'class ArgumentTypeMismatch(Error):', 'class ArgumentTypeMismatch(Exception):')],
+    # the retry uses ASCII for templates
+    'm19-retry-with-ascii-for-pot': [replace('lib/check/__init__.py', "file = constructor(self.path, encoding='ISO-8859-1')", "file = constructor(self.path, encoding=('ASCII' if is_template else 'ISO-8859-1'))")],
+    # an over-long charset name escapes the lookup handler
+    'm20-long-charset-name': [replace('lib/check/__init__.py', "                except encinfo.EncodingLookupError:\n                    if encoding == 'CHARSET':",
+                                      "                except encinfo.EncodingLookupError as exc:\n                    if len(encoding) > 40:\n                        raise\n                    if encoding == 'CHARSET':")],
+    # one expat error code of a msgid escapes
+    'm21-xml-msgid-code5': [replace('lib/check/__init__.py', "            xml.check_fragment(message.msgid)\n        except xml.SyntaxError as exc:",
+                                    "            xml.check_fragment(message.msgid)\n        except xml.SyntaxError as exc:\n            if exc.code == 5:\n                raise")],
+    # the retry around rply's cache-directory race removed
+    'm22-rply-cache-race': [git_revert('1dc67d2')],
     # behaviour-preserving rewrites: must stay quiet
     'p01-preserving-handler-order': [replace('lib/gettext.py', "    except intexpr.LexingError:\n        raise PluralExpressionSyntaxError\n    except intexpr.ParsingError:\n        raise PluralExpressionSyntaxError\n",
                                              "    except (intexpr.ParsingError, intexpr.LexingError):\n        raise PluralExpressionSyntaxError\n")],
